@@ -1,3 +1,9 @@
 // Pasted into protocols/relay/src/copy_future.rs (mod verif) under cfg(kani).
 #[allow(unused_imports)]
 use super::*;
+
+pub(crate) mod c49 {
+    #[allow(unused_imports)]
+    use super::super::*;
+    include!(concat!(env!("LIBP2P_VERIF"), "/units/C49/copy.rs"));
+}
